@@ -323,7 +323,29 @@ func ruleP10Epoch(p *Prog, r *Report) {
 		}
 	}
 	if nr == nil {
-		r.undecided(rule, "line-number", p.pos(parse.Pos()), "the line-number closure (func([]txt.Line) int) was not found in parse")
+		// not a closure: a function or (bound) method that is applied to the cursor and yields an int
+		for _, f := range fam {
+			eachInstr(f, func(in ssa.Instruction) {
+				c, ok := in.(*ssa.Call)
+				if !ok || !isIntType(c.Type()) || len(c.Call.Args) == 0 {
+					return
+				}
+				last := c.Call.Args[len(c.Call.Args)-1]
+				if u, isU := strip(last).(*ssa.UnOp); !isU || u.Op != token.MUL || cellOf(u.X) != cursor {
+					return
+				}
+				g := funcLiteral(c.Call.Value)
+				if g == nil {
+					g = staticCallee(c)
+				}
+				if g != nil && len(g.Params) >= 1 && isSliceOf(g.Params[len(g.Params)-1].Type(), "Line") {
+					nr = g
+				}
+			})
+		}
+	}
+	if nr == nil {
+		r.undecided(rule, "line-number", p.pos(parse.Pos()), "the line-number function (func([]txt.Line) int applied to the line cursor) was not found in parse")
 		return
 	}
 	// nr must compute from the length of its argument only (monotone in the cursor)
@@ -350,7 +372,7 @@ func ruleP10Epoch(p *Prog, r *Report) {
 			// E: the evaluation of the line-number closure behind the LINE argument
 			var e *ssa.Call
 			lv := deref(a[2])
-			if cc, ok := lv.(*ssa.Call); ok && funcLiteral(cc.Call.Value) == nr {
+			if cc, ok := lv.(*ssa.Call); ok && (funcLiteral(cc.Call.Value) == nr || staticCallee(cc) == nr) {
 				e = cc
 			}
 			if e == nil {
@@ -359,7 +381,7 @@ func ruleP10Epoch(p *Prog, r *Report) {
 			}
 			// its argument must be the current cursor
 			okArg := false
-			if u, ok := strip(e.Call.Args[0]).(*ssa.UnOp); ok && u.Op == token.MUL && cellOf(u.X) == cursor {
+			if u, ok := strip(e.Call.Args[len(e.Call.Args)-1]).(*ssa.UnOp); ok && u.Op == token.MUL && cellOf(u.X) == cursor {
 				okArg = true
 			}
 			if !okArg {
